@@ -14,7 +14,7 @@ import Otel.C11.Model
 namespace Otel.C11.GenTie
 open Otel.C11
 
-/-- the three limits enforced by `New`/`Parse`/`SetMember` are the model's -/
+/-- the three limits enforced by `New` and `Parse` / `parseMember` (`SetMember` and `DeleteMember` enforce none) are the model's -/
 theorem gen_limits_eq_model :
     Otel.Gen.C11.maxMembers = (maxMembers : Int) ∧
     Otel.Gen.C11.maxBytesPerMembers = (maxBytesPerMembers : Int) ∧
@@ -70,5 +70,38 @@ theorem gen_parse_member_head (n : Int) :
     Otel.Gen.C11.parseMemberHead n = (if n > (maxBytesPerMembers : Int) then "errMemberBytes" else "<cut>") := by
   unfold Otel.Gen.C11.parseMemberHead maxBytesPerMembers
   by_cases h : n > 4096 <;> simp [h] <;> (try omega) <;> (repeat' split) <;> (try simp_all) <;> omega
+
+/-! ### the two character tables and the escaping predicate -/
+
+/-- table lookup in a generated keyed-array literal (absent index = zero value `false`) -/
+def tableAt (t : List (Int × Bool)) (n : Nat) : Bool := (t.lookup (n : Int)).getD false
+
+/-- the 128-entry tables `safeKeyCharset` / `safeValueCharset` are the model's `keyCharN` / `valueCharN`, entry by
+entry, and have no entry outside 0..127 -/
+theorem gen_charsets_eq_model :
+    (List.range 128).all (fun n => tableAt Otel.Gen.C11.safeKeyCharset n == keyCharN n) = true ∧
+    (List.range 128).all (fun n => tableAt Otel.Gen.C11.safeValueCharset n == valueCharN n) = true ∧
+    (Otel.Gen.C11.safeKeyCharset ++ Otel.Gen.C11.safeValueCharset).all (fun e => decide (0 ≤ e.1 ∧ e.1 < 128)) = true := by
+  decide
+
+/-- `validateKeyChar` / `validateValueChar`: inside 0..127 the table decides, outside the answer is no — the shape of
+the model's `validateKeyChar r = r < 0x80 && keyCharN r` -/
+theorem gen_validate_char_shape (inTable : Bool) (c : Int) :
+    Otel.Gen.C11.validateKeyChar inTable c = (decide (0 ≤ c ∧ c < 128) && inTable) ∧
+    Otel.Gen.C11.validateValueChar inTable c = (decide (0 ≤ c ∧ c < 128) && inTable) := by
+  unfold Otel.Gen.C11.validateKeyChar Otel.Gen.C11.validateValueChar
+  by_cases h : (0 ≤ c ∧ c < 128) <;> cases inTable <;> simp [h] <;> omega
+
+/-- `shouldEscape` as written today is the model's: '%' is always escaped, any other byte iff it is not a valid value
+character -/
+theorem gen_should_escape_eq_model (c : UInt8) :
+    Otel.Gen.C11.shouldEscape (validateValueChar c.toNat) (c.toNat : Int) = shouldEscape c := by
+  unfold Otel.Gen.C11.shouldEscape shouldEscape cPct
+  by_cases h : c = 0x25
+  · subst h; decide
+  · have h1 : ¬ ((c.toNat : Int) = 37) := by
+      intro hc; apply h; apply UInt8.toNat_inj.mp; simp; omega
+    have h2 : (c == (0x25 : UInt8)) = false := by simpa using h
+    simp [h1, h2]
 
 end Otel.C11.GenTie
